@@ -120,8 +120,8 @@ func corpus() []scenario {
 		st(v, "d 106 c001 r 106 c002"),
 	}
 	// a block that lists the same Cairo-0 class twice (DeclaredV0Classes is a slice), then its
-	// revert: the new backend reverts, the legacy backend cannot (C04's business; here: the
-	// model follows, and the refused revert must not change any read)
+	// revert: before 7460746 the legacy backend could not revert it (the model follows the tree
+	// through the dupDeclFix probe; a refused revert must not change any read)
 	c0b := hx(&cairo0Fxs[1])
 	listedTwice := []Step{
 		st(v, "d 104 c000 sa 104 sk 2 5"),
@@ -160,6 +160,19 @@ func corpus() []scenario {
 		st("0.14.1", "sa 104 sk 2 0"),
 		rv,
 	}
+	// values at the edges of the domain: class hash 0, nonce written as 0 and lowered, the largest
+	// felt, same-value rewrites, replace to class 0 and back, with reverts in between
+	pm1 := "800000000000011000000000000000000000000000000000000000000000000"
+	extremes := []Step{
+		st(v, "d 104 0 sa 104 sk 2 "+pm1+" n 104 0"),
+		st(v, "n 104 5 sa 104 sk 2 "+pm1+" sk 3 "+pm1),
+		st(v, "n 104 2 r 104 c001 sa 104 sk 2 1"),
+		st(v, "r 104 0 n 104 0 sa 104 sk 3 0"),
+		rv,
+		st(v, "r 104 c001 n 104 "+pm1),
+		rv, rv,
+		st(v, "d 105 "+pm1+" sa 105 sk 4 "+pm1),
+	}
 	var out []scenario
 	add := func(name string, srcNew bool, dst []bool, drainOK bool, steps []Step) {
 		out = append(out, scenario{cfg: Config{Name: name, SrcNew: srcNew, Dst: dst, AllowDrain: drainOK}, steps: steps})
@@ -174,13 +187,15 @@ func corpus() []scenario {
 	add("discarded/src-new", true, both, false, discarded)
 	add("deploy-and-replace-in-one-diff", false, both, false, deployReplace)
 	add("class-listed-twice/src-new", true, both, false, listedTwice)
-	add("class-listed-twice/src-legacy", false, both, false, listedTwice[:4])
+	add("class-listed-twice/src-legacy", false, both, false, listedTwice)
 	add("declared-after-registered-for-deployed/src-new", true, both, false, laterDecl)
 	add("declared-after-registered-for-deployed/src-legacy", false, both, false, laterDecl)
 	add("migration-with-a-foreign-hash/src-legacy", false, both, false, foreignMig)
 	add("migration-with-a-foreign-hash/src-new", true, both, false, foreignMig)
 	add("rejected-blocks/src-legacy", false, both, false, invalid)
 	add("rejected-blocks/src-new", true, both, false, invalid)
+	add("extreme-values/src-legacy", false, both, false, extremes)
+	add("extreme-values/src-new", true, both, false, extremes)
 	add("drain/new", true, []bool{true}, true, drain)
 	add("drain/legacy", false, []bool{false}, true, drain)
 	add("drain-revert/new", true, []bool{true}, true, drainRevert)
